@@ -137,7 +137,7 @@ def check_kernel(ctx, rep, name: str, k: Kernel):
                           f"{name}: `{f.text}` must be P(branch) @ partial (rows = parent state); a transposed or right-multiplied matrix gives "
                           f"Σ_parent instead of Σ_child — invisible for symmetric P (JC69), wrong for HKY/GTR with unequal frequencies")
             else:
-                rep.check('C01.K', key + '::gathers-the-child-state-column', bool(f.gather_last), W, facts,
+                rep.check('C01.K', key + '::gathers-the-child-state-column', bool(f.gather_last) and not f.transposed, W, facts,
                           f"{name}: tip states must select the last (child state / column) axis of the tip matrices")
             # tip alternative guarded by the same child
             cond = getattr(f, 'cond', None)
